@@ -292,3 +292,27 @@ func (s *State) arr(E types.Type, base *Term) *Term {
 	}
 	return Select(s.amem(E), base)
 }
+
+// escapeParts: the Ref components through which package-level *mutable* memory
+// could be reached and written: pointers and slices (interface and function
+// values are excluded: error sentinels and function tables are immutable boxes).
+func escapeParts(v *Term, T types.Type) []*Term {
+	switch u := T.Underlying().(type) {
+	case *types.Pointer, *types.Map, *types.Chan:
+		return []*Term{v}
+	case *types.Slice:
+		return []*Term{Acc("sbase", v)}
+	case *types.Struct:
+		si := structInfo(T)
+		var out []*Term
+		for i, f := range si.Fields {
+			out = append(out, escapeParts(StructField(si, v, i), f.T)...)
+		}
+		return out
+	case *types.Basic:
+		if u.Kind() == types.UnsafePointer {
+			return []*Term{v}
+		}
+	}
+	return nil
+}
